@@ -553,3 +553,27 @@ package k8s
 //@ func (*Pod).IsPodRepresentative
 //@   requires pod != nil
 //@   ensures [C09,C16] def: res == (pod.FakePod && pod.Name == "representative-pod")
+
+// ---------------------------------------------------------------------------------------------
+// The IP blocks a policy refers to (C01, C05): what the report's partition of the address space is refined by.
+// Every returned block is a single contiguous range, lies inside the block of one rule peer, and every rule peer's block
+// (CIDR minus excepts, for every occurrence - also of a CIDR that occurred before with other excepts) is exactly the union
+// of the returned ranges inside it.
+// ---------------------------------------------------------------------------------------------
+
+// block x lies inside the block of rule peer rp
+//@ fun insidePeerBlock(x *netset.IPBlock, rp netv1.NetworkPolicyPeer) bool = rp.IPBlock != nil && (forall b int :: {ipset(x)[b]} ipset(x)[b] ==> inRuleBlock(rp.IPBlock, b))
+//@ pred piecesOK(res []*netset.IPBlock) = forall i int :: {res[i]} (0 <= i && i < len(res)) ==> (res[i] != nil && isRange(ipset(res[i])))
+// the block of every ipBlock peer among the first n rule peers is the union of returned ranges inside it
+//@ pred peersCovered(res []*netset.IPBlock, rulePeers []netv1.NetworkPolicyPeer, n int) = forall k int, a int :: {rulePeers[k], inRuleBlock(rulePeers[k].IPBlock, a)}
+//@     (0 <= k && k < n && rulePeers[k].IPBlock != nil && inRuleBlock(rulePeers[k].IPBlock, a)) ==>
+//@     (exists i int :: {res[i]} 0 <= i && i < len(res) && ipset(res[i])[a] && insidePeerBlock(res[i], rulePeers[k]))
+
+//@ func (*NetworkPolicy).rulePeersReferencedIPBlocks
+//@   requires np != nil && np.NetworkPolicy != nil
+//@   modifies *
+//@   ensures [C05,C01] ranges: res1 == nil ==> piecesOK(res0)
+//@   ensures [C01,C05] exact: res1 == nil ==> peersCovered(res0, rulePeers, len(rulePeers))
+//@   loop 1:
+//@     invariant ranges: piecesOK(res)
+//@     invariant exact: peersCovered(res, rulePeers, rangeindex + 1)
